@@ -77,66 +77,68 @@ Proof. destruct s; simpl; split; intro H; auto; try discriminate; destruct H; di
 (* ------------------------------------------------------------------ ready_only *)
 
 Section Thm.
+Variable clo : bool.
 Variable eda : bool.
+Hypothesis Hver : clo = true -> eda = false.
 Variable g : list tnode.
 Hypothesis Hwf : wf g.
 Variable st0 : nat -> tstate.
 Variable rootss : list (list nat).
 
-Lemma reachable_sys_ok sy : reachable eda g (init_sys st0 rootss) sy -> sys_ok sy.
-Proof. apply reachable_ok; [exact Hwf | apply init_sys_ok]. Qed.
+Lemma reachable_sys_ok_v sy : reachable_v clo eda g (init_sys st0 rootss) sy -> sys_ok sy.
+Proof. apply (reachable_ok clo eda Hver g Hwf); apply init_sys_ok. Qed.
 
 (* Every Run handed to the executor, by any evaluation, in any reachable state:
    every task of every dependency phase is in a state Enqueue classifies as done. *)
-Theorem ready_only_gen sy l :
-  reachable eda g (init_sys st0 rootss) sy -> legal_label l ->
-  forall e r, In (e, r) (snd (step eda g sy l)) ->
+Theorem ready_only_gen_v sy l :
+  reachable_v clo eda g (init_sys st0 rootss) sy -> legal_label l ->
+  forall e r, In (e, r) (snd (step_v clo eda g sy l)) ->
   forall d u, In d (tdeps (node g r)) -> In u (phase g d) ->
   enq_class eda (wst (sw sy) u) = CDone.
 Proof.
   intros R Hl e r Hr d u Hd Hu.
-  pose proof (step_spec eda g Hwf sy l (reachable_sys_ok sy R) Hl) as F.
-  exact (sf_ready _ _ _ _ _ _ F e r Hr d Hd u Hu).
+  pose proof (step_spec clo eda Hver g Hwf sy l (reachable_sys_ok_v sy R) Hl) as F.
+  exact (sf_ready _ _ _ _ _ _ _ F e r Hr d Hd u Hu).
 Qed.
 
 (* Eval returns nil only when every root is in a state Enqueue classifies as done. *)
-Theorem success_sound_gen sy l :
-  reachable eda g (init_sys st0 rootss) sy -> legal_label l ->
-  forall e, eres (get_ev sy e) = None -> eres (get_ev (fst (step eda g sy l)) e) = Some false ->
+Theorem success_sound_gen_v sy l :
+  reachable_v clo eda g (init_sys st0 rootss) sy -> legal_label l ->
+  forall e, eres (get_ev sy e) = None -> eres (get_ev (fst (step_v clo eda g sy l)) e) = Some false ->
   forall r, In r (eroots (get_ev sy e)) ->
-  enq_class eda (wst (sw (fst (step eda g sy l))) r) = CDone.
+  enq_class eda (wst (sw (fst (step_v clo eda g sy l))) r) = CDone.
 Proof.
   intros R Hl e Hn Hs r Hr.
-  pose proof (step_spec eda g Hwf sy l (reachable_sys_ok sy R) Hl) as F.
-  apply (sf_success _ _ _ _ _ _ F e Hn Hs r Hr). destruct Hwf as [H1 _]. apply H1.
+  pose proof (step_spec clo eda Hver g Hwf sy l (reachable_sys_ok_v sy R) Hl) as F.
+  apply (sf_success _ _ _ _ _ _ _ F e Hn Hs r Hr). destruct Hwf as [H1 _]. apply H1.
 Qed.
 
 (* A task is handed out only from INIT or LOST, becomes WAITING in the same atomic
    step, and at most once per step. *)
-Theorem no_double_handout sy l :
-  reachable eda g (init_sys st0 rootss) sy -> legal_label l ->
-  NoDup (map snd (snd (step eda g sy l))) /\
-  forall e r, In (e, r) (snd (step eda g sy l)) ->
-    ~ handed (wst (sw sy) r) /\ wst (sw (fst (step eda g sy l))) r = TWaiting.
+Theorem no_double_handout_v sy l :
+  reachable_v clo eda g (init_sys st0 rootss) sy -> legal_label l ->
+  NoDup (map snd (snd (step_v clo eda g sy l))) /\
+  forall e r, In (e, r) (snd (step_v clo eda g sy l)) ->
+    ~ handed (wst (sw sy) r) /\ wst (sw (fst (step_v clo eda g sy l))) r = TWaiting.
 Proof.
-  intros R Hl. pose proof (step_spec eda g Hwf sy l (reachable_sys_ok sy R) Hl) as F.
-  split; [exact (sf_nodup _ _ _ _ _ _ F)|].
-  intros e r Hr. destruct (sf_run _ _ _ _ _ _ F e r Hr) as [A B]. split; [|exact B].
+  intros R Hl. pose proof (step_spec clo eda Hver g Hwf sy l (reachable_sys_ok_v sy R) Hl) as F.
+  split; [exact (sf_nodup _ _ _ _ _ _ _ F)|].
+  intros e r Hr. destruct (sf_run _ _ _ _ _ _ _ F e r Hr) as [A B]. split; [|exact B].
   intros [X|X]; destruct A as [Y|Y]; congruence.
 Qed.
 
-Lemma exec_cons_fst sy l ls : fst (exec eda g sy (l :: ls)) = fst (exec eda g (fst (step eda g sy l)) ls).
+Lemma exec_cons_fst_v sy l ls : fst (exec_v clo eda g sy (l :: ls)) = fst (exec_v clo eda g (fst (step_v clo eda g sy l)) ls).
 Proof.
-  simpl. destruct (step eda g sy l) as [sy1 runs]. simpl.
-  destruct (exec eda g sy1 ls) as [sy2 tr]. reflexivity.
+  simpl. destruct (step_v clo eda g sy l) as [sy1 runs]. simpl.
+  destruct (exec_v clo eda g sy1 ls) as [sy2 tr]. reflexivity.
 Qed.
 
-Lemma exec_reachable sy ls :
-  reachable eda g (init_sys st0 rootss) sy -> Forall legal_label ls ->
-  reachable eda g (init_sys st0 rootss) (fst (exec eda g sy ls)).
+Lemma exec_reachable_v sy ls :
+  reachable_v clo eda g (init_sys st0 rootss) sy -> Forall legal_label ls ->
+  reachable_v clo eda g (init_sys st0 rootss) (fst (exec_v clo eda g sy ls)).
 Proof.
   revert sy. induction ls as [|l ls IH]; intros sy R L; [exact R|].
-  rewrite exec_cons_fst. inversion L; subst. apply IH; [|assumption]. apply reach_step; assumption.
+  rewrite exec_cons_fst_v. inversion L; subst. apply IH; [|assumption]. apply reach_step; assumption.
 Qed.
 
 Lemma handed_dec s : {handed s} + {~ handed s}.
@@ -145,34 +147,64 @@ Proof. destruct s; try (left; unfold handed; auto; fail); right; intros [X|X]; d
 (* Between two hand-outs of the same task - by the same or by different
    evaluations - the environment has taken the task out of WAITING/RUNNING
    (reported it lost): while a task is with an executor nobody hands it out again. *)
-Theorem single_runner : forall ls2 sy l2 t e2,
-  reachable eda g (init_sys st0 rootss) sy -> Forall legal_label ls2 -> legal_label l2 ->
+Theorem single_runner_v : forall ls2 sy l2 t e2,
+  reachable_v clo eda g (init_sys st0 rootss) sy -> Forall legal_label ls2 -> legal_label l2 ->
   handed (wst (sw sy) t) ->
-  In (e2, t) (snd (step eda g (fst (exec eda g sy ls2)) l2)) ->
+  In (e2, t) (snd (step_v clo eda g (fst (exec_v clo eda g sy ls2)) l2)) ->
   exists s, In (LSet t s) ls2 /\ ~ handed s.
 Proof.
   induction ls2 as [|l ls IH]; intros sy l2 t e2 R L L2 Hh Hin.
   - exfalso. simpl in Hin.
-    pose proof (step_spec eda g Hwf sy l2 (reachable_sys_ok sy R) L2) as F.
+    pose proof (step_spec clo eda Hver g Hwf sy l2 (reachable_sys_ok_v sy R) L2) as F.
     assert (Hne : forall s, l2 <> LSet t s).
     { intros s ->. simpl in Hin. destruct Hin. }
-    destruct (sf_keep _ _ _ _ _ _ F t Hne Hh) as [_ N]. exact (N e2 Hin).
-  - rewrite exec_cons_fst in Hin. inversion L; subst.
-    pose proof (step_spec eda g Hwf sy l (reachable_sys_ok sy R) H1) as F.
-    assert (R1 : reachable eda g (init_sys st0 rootss) (fst (step eda g sy l))) by (apply reach_step; assumption).
+    destruct (sf_keep _ _ _ _ _ _ _ F t Hne Hh) as [_ N]. exact (N e2 Hin).
+  - rewrite exec_cons_fst_v in Hin. inversion L; subst.
+    pose proof (step_spec clo eda Hver g Hwf sy l (reachable_sys_ok_v sy R) H1) as F.
+    assert (R1 : reachable_v clo eda g (init_sys st0 rootss) (fst (step_v clo eda g sy l))) by (apply reach_step; assumption).
     assert (Dl : (exists s, l = LSet t s) \/ (forall s, l <> LSet t s)).
     { destruct l as [t' s'|e|e t'|e]; try (right; intros; discriminate).
       destruct (Nat.eq_dec t' t) as [->|Ne]; [left; eexists; reflexivity | right; intros s X; inversion X; congruence]. }
     destruct Dl as [[s ->]|Dl].
     + destruct (handed_dec s) as [Hs|Hs].
-      * assert (Hh1 : handed (wst (sw (fst (step eda g sy (LSet t s)))) t)) by (simpl; rewrite upd_same; exact Hs).
+      * assert (Hh1 : handed (wst (sw (fst (step_v clo eda g sy (LSet t s)))) t)) by (simpl; rewrite upd_same; exact Hs).
         destruct (IH _ l2 t e2 R1 H2 L2 Hh1 Hin) as [s' [A B]]. exists s'. split; [right; exact A | exact B].
       * exists s. split; [left; reflexivity | exact Hs].
-    + destruct (sf_keep _ _ _ _ _ _ F t Dl Hh) as [Hh1 _].
+    + destruct (sf_keep _ _ _ _ _ _ _ F t Dl Hh) as [Hh1 _].
       destruct (IH _ l2 t e2 R1 H2 L2 Hh1 Hin) as [s' [A B]]. exists s'. split; [right; exact A | exact B].
 Qed.
 
 End Thm.
+
+(* ---- the same, for the code version that goes with [eda] ---- *)
+
+Theorem ready_only_gen eda g (Hwf : wf g) st0 rootss sy l :
+  reachable eda g (init_sys st0 rootss) sy -> legal_label l ->
+  forall e r, In (e, r) (snd (step eda g sy l)) ->
+  forall d u, In d (tdeps (node g r)) -> In u (phase g d) ->
+  enq_class eda (wst (sw sy) u) = CDone.
+Proof. exact (ready_only_gen_v (ver eda) eda (ver_ok eda) g Hwf st0 rootss sy l). Qed.
+
+Theorem success_sound_gen eda g (Hwf : wf g) st0 rootss sy l :
+  reachable eda g (init_sys st0 rootss) sy -> legal_label l ->
+  forall e, eres (get_ev sy e) = None -> eres (get_ev (fst (step eda g sy l)) e) = Some false ->
+  forall r, In r (eroots (get_ev sy e)) ->
+  enq_class eda (wst (sw (fst (step eda g sy l))) r) = CDone.
+Proof. exact (success_sound_gen_v (ver eda) eda (ver_ok eda) g Hwf st0 rootss sy l). Qed.
+
+Theorem no_double_handout eda g (Hwf : wf g) st0 rootss sy l :
+  reachable eda g (init_sys st0 rootss) sy -> legal_label l ->
+  NoDup (map snd (snd (step eda g sy l))) /\
+  forall e r, In (e, r) (snd (step eda g sy l)) ->
+    ~ handed (wst (sw sy) r) /\ wst (sw (fst (step eda g sy l))) r = TWaiting.
+Proof. exact (no_double_handout_v (ver eda) eda (ver_ok eda) g Hwf st0 rootss sy l). Qed.
+
+Theorem single_runner eda g (Hwf : wf g) st0 rootss : forall ls2 sy l2 t e2,
+  reachable eda g (init_sys st0 rootss) sy -> Forall legal_label ls2 -> legal_label l2 ->
+  handed (wst (sw sy) t) ->
+  In (e2, t) (snd (step eda g (fst (exec eda g sy ls2)) l2)) ->
+  exists s, In (LSet t s) ls2 /\ ~ handed s.
+Proof. exact (single_runner_v (ver eda) eda (ver_ok eda) g Hwf st0 rootss). Qed.
 
 (* ------------------------------------------------------------------ instances *)
 
